@@ -299,6 +299,7 @@ type e2eOutcome struct {
 	id     int
 	out    string
 	reply  []byte // retained
+	ctxBuf bool   // the call supplied a context buffer
 	rdig   string
 	stream []string
 	smsgs  [][]byte // stream messages as handed out by ReadMessage, retained
@@ -569,6 +570,10 @@ func runE2E(cfg e2eCfg, ops []e2eOp) *e2eRun {
 	for _, o := range run.outs {
 		if o.reply != nil && digest(o.reply) != o.rdig {
 			run.problems = append(run.problems, connVerdict{"C11", "reply-stable", "C11/reply-mutated/" + cfg.Body, fmt.Sprintf("reply bytes retained by the caller of call %d changed after later traffic", o.id)})
+			if o.ctxBuf {
+				// C19: a context buffer belongs to the call it was supplied for; a later call wrote into it
+				run.problems = append(run.problems, connVerdict{"C19", "context-buffer-is-this-calls-only", "C19/context-buffer-written-by-another-call/" + cfg.Body, fmt.Sprintf("call %d supplied a context buffer and kept its reply; later calls changed those bytes", o.id)})
+			}
 			break
 		}
 	}
@@ -745,6 +750,7 @@ func doE2EOp(cfg e2eCfg, conn *rpc.Conn, rt rpc.RoundTripper, client *rpc.Client
 				n = 48
 			}
 			ctx = context.WithValue(ctx, rpc.BufferContextKey, make([]byte, n))
+			out.ctxBuf = true
 		}
 		switch {
 		case client != nil:
